@@ -14,7 +14,8 @@ EXPLANATION = (
     "get_addresses_for_host, whose address accessor is guarded by a liveness test and tagged with the record's "
     "interface.  Decides these structural clauses, not which addresses over which history."
     " (g) Every path that ends a hostname search purges its pending ResolveHostname rerun."
-    " (h) HostnameResolutionEvent sends are lossless; keys of hostname_resolvers and addr are folded by one function.")
+    " (h) HostnameResolutionEvent sends are lossless; keys of hostname_resolvers and addr are folded by one function."
+    " (i) A function that compares a record type with A or AAAA compares it with both. The doubling schedule of the hostname search (C19a) is checked here too.")
 UNDECIDED = ["which addresses are reported over which arrival history", "exact time of SearchTimeout",
              "doubling schedule (decided under C19)"]
 
